@@ -1,5 +1,8 @@
 #!/bin/sh
-# offline build of the framework: Lean model + theorems + driver (no network, no Mathlib `require`)
-cd "$(dirname "$0")/lean" || exit 2
+# offline build of the framework: regenerate the source-derived Lean tables, then build the Lean model,
+# all theorems and the driver (no network, no Mathlib `require`)
+cd "$(dirname "$0")" || exit 2
+/venv/bin/python harness/translate.py || exit 1
+cd lean || exit 2
 mkdir -p .lake
 flock .lake/verif.lock lake build driver Boario || exit 1
